@@ -64,10 +64,23 @@ def work(item):
                     a[0], a[1], a[2], a[3], a[4] = c, ec * fac, hkl[0], hkl[1], hkl[2]
                     plan.append((fn, kinds, a))
                     st.cls("bragg_cutoff_bracket")
+    if tag.endswith("_1"):
+        # a collection of the caller's own: crystals from a generated file plus one added with its volume member at 0 (the collection computes it);
+        # whatever is looked up afterwards is a complete crystal: positive volume, positive d-spacing
+        import c17, random
+        prng = random.Random(mix(seed, "c03-private", tag))
+        for _ in range(12 if quick else 60):
+            l = c17.private_array_line(prng)
+            if prng.random() < 0.5:
+                parts = l.split("\t")
+                parts[3] = calls.hx("AA_private_entry")
+                l = "\t".join(parts)
+            plan.append(("@private_array", None, l))
+        desc["@private_array"] = dict(ret="x", args=["int", "const char*", "const char*"], argnames=["cap", "text", "query"])
     if "@error_api" in fns or tag.endswith("_0"):
         plan.append(("@error_api", ["i"], [2]))
         desc["@error_api"] = dict(ret="x", args=["int"], argnames=["code"])
-    lines = [calls.line(fn, kinds, args) for fn, kinds, args in plan]
+    lines = [args if fn == "@private_array" else calls.line(fn, kinds, args) for fn, kinds, args in plan]
     out, rc, err = calls.run(exe, mode, lines, sdir, tag)
     crashed_at = None
     if rc != 0 or len(out) != len(lines):
@@ -92,10 +105,21 @@ def work(item):
         st.ev()
         p = calls.parse(o)
         has_slot = fn.startswith("@") or "xrl_error**" in desc[fn]["args"]
-        case = dict(config=config, fn=fn, args=[a if not isinstance(a, bytes) else a.decode("latin-1") for a in args])
+        case = dict(config=config, fn=fn, args=[a if not isinstance(a, bytes) else a.decode("latin-1") for a in args] if fn != "@private_array" else [])
         if fn == "@error_api":
             if not (p["result"] or "").startswith("err:ok"):
                 st.violation("error-api", case, "copy/propagate/clear/matches consistent", p["result"])
+            continue
+        if fn == "@private_array":
+            r = p["result"] or ""
+            st.cls("private_array_scenarios")
+            if ";q=" in r and not r.endswith(";q=none"):
+                q = r.split(";q=")[1].split(":")
+                vol, d = float.fromhex(q[0]), float.fromhex(q[2])
+                if not (vol > 0 and d > 0):
+                    st.violation("nonpositive-without-error:@private_array", dict(config=config, scenario=r[:120]), "looked-up crystal with volume > 0 and d(1,1,1) > 0", dict(volume=vol, d=d))
+            elif "pa:rv=" not in r:
+                st.violation("private-array-scenario-broken", dict(config=config), "scenario result", r[:200])
             continue
         for suffix, exp, got in apisweep.judge(fn, p, has_slot):
             st.violation("%s:%s" % (suffix, fn), case, exp, got)
